@@ -86,7 +86,7 @@ func exprDepth(v ssa.Value, subst map[*ssa.Parameter]string, depth int) string {
 	case *ssa.Extract:
 		return exprDepth(x.Tuple, subst, d) + "#" + fmt.Sprint(x.Index)
 	case *ssa.Slice:
-		if al, ok := x.X.(*ssa.Alloc); ok && al.Comment == "varargs" && x.Low == nil && x.High == nil {
+		if al, ok := x.X.(*ssa.Alloc); ok && (al.Comment == "varargs" || al.Comment == "slicelit") && x.Low == nil && x.High == nil {
 			// variadic argument pack: render its elements
 			elems := map[int64]string{}
 			max := int64(-1)
@@ -609,6 +609,10 @@ func globalConstBool(g *ssa.Global) (bool, bool) {
 		return r.val, r.ok
 	}
 	res := gcb{}
+	if g.Object() == nil || g.Pkg == nil {
+		globalBoolCache[g] = res
+		return false, false
+	}
 	stores := 0
 	var val *ssa.Const
 	for _, pk := range g.Pkg.Prog.AllPackages() {
